@@ -47,4 +47,11 @@ theorem fixed_point (m : SMsg) (hm : m.Valid) :
   rw [ST.from_bytes_unchecked]
   exact h.2.1
 
+/-- C01 for the translated RawShortMessage impls: a RawShortMessage returns exactly the bytes it was made from -/
+theorem raw_roundtrip (b : Bytes) :
+    ∃ m, RawImpl.RawShortMessage.from_bytes_unchecked b = .ok m ∧
+      RawImpl.RawShortMessage.status_byte m = .ok b.status ∧ RawImpl.RawShortMessage.data_byte_1 m = .ok b.d1 ∧
+      RawImpl.RawShortMessage.data_byte_2 m = .ok b.d2 :=
+  ⟨b, rfl, rfl, rfl, rfl⟩
+
 end Midi.Props.TStruct
